@@ -323,6 +323,16 @@ func (s *MemoryBackend) read(ctx context.Context, store string, filter storage.R
 		}
 	}
 
+	if from < 0 {
+		// a forged offset: never a position this backend issued
+		return nil, storage.ErrInvalidContinuationToken
+	}
+	if from > len(matches) {
+		// an offset beyond the data has nothing left to return
+		matches = nil
+		from = 0
+	}
+
 	if from <= len(matches) {
 		matches = matches[from:]
 	}
